@@ -52,6 +52,8 @@ class Track:
         self.lat = set()
         self.aln = set()
         self.everutt = False
+        self.pos = 0         # position in the recording for streaming blocks
+        self.speech = 0      # samples of the recording given in the current / last utterance
         self.cfg = {"jsgf": "none", "fsg": "none"}   # grammar keys of the decoder's configuration: none|good|bad
 
     def eff_gram(self):
@@ -123,8 +125,20 @@ def gen_history(rng, stats, maxcalls=40, profile=None):
 
     def audio_block(full=False):
         clip = rng.choice(CLIPS)
+        if not full and rng.chance(0.55):
+            # streaming speech: the next piece of the recording, so that real results (words, lattices with
+            # several paths, alignments) appear
+            ln = rng.choice([2048, 4000, 8000, 8000, 12000, 16000])
+            off = t.pos
+            t.pos = (t.pos + ln) % GOLEN
+            t.speech += ln
+            stats["blocks"]["go-stream"] = stats["blocks"].get("go-stream", 0) + 1
+            return ("f32" if rng.chance(0.2) else "i16"), "go", off, ln
         if full:
-            ln = rng.choice([0, 1, 160, 399, 400, 401, 2000, 4800, 8000, 16000, 24000])
+            ln = rng.choice([0, 1, 160, 399, 400, 401, 2000, 4800, 8000, 16000, 24000, 36000, 44000])
+            if ln >= 16000 and rng.chance(0.7):
+                clip = "go"
+                t.speech += ln
         else:
             ln = rng.choice([0, 1, 80, 159, 160, 161, 255, 256, 257, 399, 400, 401, 512, 1024, 2048, 4000, 8000,
                              rng.range(1, 3000), rng.range(3000, 16000)])
@@ -176,10 +190,10 @@ def gen_history(rng, stats, maxcalls=40, profile=None):
         w += [("hyp", 6), ("prob", 2), ("nframes", 2), ("seg", 6), ("nbest", 5), ("lattice", 4), ("latbest", 2),
               ("latretain", 2), ("align", 5), ("alretain", 2), ("aliter", 4), ("json", 6), ("getcmn", 2), ("setcmn", 2),
               ("lookup", 2), ("addword0", 3), ("cfg", 3), ("times", 1), ("retain", 2), ("free", 4), ("freenull", 1)]
-        w += [("segnext", 3 * len(t.seg)), ("segfree", 2 * len(t.seg)), ("hypnext", 3 * len(t.hyp)),
-              ("hypfree", 2 * len(t.hyp)), ("hypseg", 2 * len(t.hyp)), ("alinext", 3 * len(t.ali)),
-              ("alichild", 2 * len(t.ali)), ("alifree", 2 * len(t.ali)), ("aligoto", len(t.ali)),
-              ("latwalk", 2 * len(t.lat)), ("latfree", 2 * len(t.lat)), ("alfree", 2 * len(t.aln))]
+        w += [("segnext", 6 * len(t.seg)), ("segfree", 2 * len(t.seg)), ("hypnext", 6 * len(t.hyp)),
+              ("hypfree", 2 * len(t.hyp)), ("hypseg", 4 * len(t.hyp)), ("alinext", 6 * len(t.ali)),
+              ("alichild", 4 * len(t.ali)), ("alifree", 2 * len(t.ali)), ("aligoto", 2 * len(t.ali)),
+              ("latwalk", 3 * len(t.lat)), ("latfree", 2 * len(t.lat)), ("alfree", 2 * len(t.aln))]
         if profile == "queries":
             w = [(a, b * (4 if a in ("hyp", "seg", "nbest", "lattice", "align", "json", "segnext", "hypnext", "alinext",
                                      "alichild", "hypseg", "aliter", "latbest") else 1)) for a, b in w]
@@ -187,6 +201,18 @@ def gen_history(rng, stats, maxcalls=40, profile=None):
             w = [(a, b * (5 if a in ("free", "retain", "reinit", "gram", "fsg", "aligntext", "start", "end") else 1)) for a, b in w]
         elif profile == "outoforder":
             w = [(a, b * (6 if a.endswith("-ooo") else 1)) for a, b in w]
+        # aim: results exist (about a second of speech was given) -> explore them; no result can exist -> keep only a
+        # few queries (they must return the documented empty value)
+        likely = t.search and t.speech >= 10000
+        QUERY = ("hyp", "seg", "nbest", "lattice", "latbest", "latretain", "align", "alretain", "aliter", "json")
+        ITER = ("segnext", "hypnext", "hypseg", "alinext", "alichild", "aligoto", "latwalk")
+        if likely:
+            w = [(a, b * (4 if a in QUERY or a in ITER else 1)) for a, b in w]
+            w = [(a, max(1, b // 3) if a in ("free", "reinit", "gram", "fsg", "aligntext", "addword1", "start") else b) for a, b in w]
+        elif profile != "queries":
+            w = [(a, max(1, b // 3) if a in QUERY else b) for a, b in w]
+        if inutt and t.speech < 10000 and not t.full:
+            w = [(a, b * 3 if a == "proc" else b) for a, b in w]
         w = [(a, b) for a, b in w if b > 0]
         c = rng.weighted(w)
 
@@ -194,6 +220,7 @@ def gen_history(rng, stats, maxcalls=40, profile=None):
             emit("start", "start" if t.search else "start-nosearch")
             if t.search:
                 t.utt, t.blocks, t.full, t.everutt = "s", 0, False, True
+                t.pos, t.speech = 0, 0
                 t.invalidate("result"); t.invalidate("align")
         elif c == "start-ooo":
             emit("start", "start-twice")
@@ -342,14 +369,16 @@ def gen_history(rng, stats, maxcalls=40, profile=None):
                 emit(f"segfree {k}", "segfree-stale" if not t.seg[k][1] else "segfree")
                 del t.seg[k]
             else:
-                emit(f"segnext {k}", "segnext")
+                for _ in range(rng.choice([1, 1, 2, 3, 8])):
+                    emit(f"segnext {k}", "segnext")
         elif c in ("hypnext", "hypfree", "hypseg"):
             k = rng.choice(sorted(t.hyp))
             if c == "hypfree" or not t.hyp[k]:
                 emit(f"hypfree {k}", "hypfree-stale" if not t.hyp[k] else "hypfree")
                 del t.hyp[k]
             elif c == "hypnext":
-                emit(f"hypnext {k}", "hypnext")
+                for _ in range(rng.choice([1, 1, 2, 4])):
+                    emit(f"hypnext {k}", "hypnext")
             else:
                 j = free_slot(t.seg)
                 if j is not None:
@@ -361,7 +390,8 @@ def gen_history(rng, stats, maxcalls=40, profile=None):
                 emit(f"alifree {k}", "alifree-stale" if not t.ali[k][1] else "alifree")
                 del t.ali[k]
             elif c == "alinext":
-                emit(f"alinext {k}", "alinext")
+                for _ in range(rng.choice([1, 1, 2, 3, 8, 30])):
+                    emit(f"alinext {k}", "alinext")
             elif c == "aligoto":
                 emit(f"aligoto {k} {rng.choice([0, 1, 2, 5, 40, 70000])}", "aligoto")
             else:
@@ -760,7 +790,7 @@ def check(c):
         ops = [l for l in f.read_text().split("\n") if l.strip() and not l.startswith("#")]
         ncorp += 1
         ok = judge(c, binp, ops, f"corpus {f.name}", stats) and ok
-    n = 220 if c.tier == "quick" else 6000
+    n = 300 if c.tier == "quick" else 4000
     maxcalls = 40 if c.tier == "quick" else 60
     # vlib.Rng streams of neighbouring seeds are shifted copies of each other: derive a decorrelated root
     root = vlib.Rng(((c.seed + 1) * 0x2545F4914F6CDD1D) & (2 ** 64 - 1))
